@@ -133,10 +133,44 @@ def _xlsx_ragged() -> bytes:
                  ("docProps/core.xml", CORE.encode())])
 
 
-def _odf(mt: str, body: str) -> bytes:
+def _odf(mt: str, body: str, extra: list[tuple[str, bytes]] = ()) -> bytes:
     content = f'<?xml version="1.0" encoding="UTF-8"?><office:document-content {ODF_NS} office:version="1.2"><office:body>{body}</office:body></office:document-content>'
     return _zip([("mimetype", mt.encode()), ("content.xml", content.encode()), ("meta.xml", ODF_META.encode()),
-                 ("META-INF/manifest.xml", ODF_MANIFEST.format(mt=mt).encode())])
+                 ("META-INF/manifest.xml", ODF_MANIFEST.format(mt=mt).encode())] + list(extra))
+
+
+def _odf_picture_frames() -> tuple[str, list[tuple[str, bytes]]]:
+    """picture frames over every absent / empty / filled combination of the optional descriptive children, and over the picture
+    kinds a packer may embed (png, a vector format routed by name only, a missing target)"""
+    frames, files = [], []
+    i = 0
+    for title in (None, "", "T"):
+        for desc in (None, "", "D"):
+            for name in (None, "N"):
+                i += 1
+                href = [f"Pictures/p{i}.png", f"Pictures/v{i}.emf", f"Pictures/w{i}.wmf", "Pictures/missing.png"][i % 4]
+                data = [PNG, b"\x01\x00\x00\x00" + b"\0" * 36 + b" EMF" + b"\0" * 44, b"\xd7\xcd\xc6\x9a" + b"\0" * 40, None][i % 4]
+                if data is not None:
+                    files.append((href, data + bytes([i])))
+                t = "" if title is None else ("<svg:title/>" if title == "" else f"<svg:title>{title}{i}</svg:title>")
+                d = "" if desc is None else ("<svg:desc/>" if desc == "" else f"<svg:desc>{desc}{i}</svg:desc>")
+                n = "" if name is None else f' draw:name="{name}{i}"'
+                frames.append(f'<draw:frame{n} svg:width="2cm" svg:height="1cm"><draw:image xlink:href="{href}" xlink:type="simple"/>{t}{d}</draw:frame>')
+    return "".join(frames), files
+
+
+def _odf_pictures(kind: str) -> bytes:
+    fr, extra = _odf_picture_frames()
+    if kind == "odp":
+        return _odf("application/vnd.oasis.opendocument.presentation",
+                    f'<office:presentation><draw:page draw:name="p1">{fr}</draw:page></office:presentation>', extra)
+    if kind == "odg":
+        return _odf("application/vnd.oasis.opendocument.graphics", f'<office:drawing><draw:page draw:name="p1">{fr}</draw:page></office:drawing>', extra)
+    if kind == "ods":
+        return _odf("application/vnd.oasis.opendocument.spreadsheet",
+                    f'<office:spreadsheet><table:table table:name="S1"><table:shapes>{fr}</table:shapes><table:table-row><table:table-cell office:value-type="string">'
+                    f'<text:p>c</text:p></table:table-cell></table:table-row></table:table></office:spreadsheet>', extra)
+    return _odf("application/vnd.oasis.opendocument.text", f'<office:text><text:p>before</text:p><text:p>{fr}</text:p><text:p>after</text:p></office:text>', extra)
 
 
 def _odt() -> bytes:
@@ -251,6 +285,8 @@ def generated() -> dict[str, bytes]:
     g["gen/a.ott"] = g["gen/a.odt"]
     g["gen/a.ods"] = _ods()
     g["gen/a.odp"] = _odp()
+    for k in ("odt", "odp", "ods", "odg"):
+        g[f"gen/pictures.{k}"] = _odf_pictures(k)
     g["gen/a.epub"] = _epub()
     g["gen/a.eml"] = _eml()
     g["gen/att.eml"] = _eml([("note.txt", b"attached text\n"), ("doc.docx", g["gen/a.docx"]), ("blob.bin", b"\x00\x01\x02")])
@@ -273,11 +309,45 @@ def generated() -> dict[str, bytes]:
     return g
 
 
+def _ppt_with_dib(ppt: bytes) -> bytes | None:
+    """the PPT picture fixture with its first picture record rewritten in place (same stream length) as a DIB record, the one
+    picture kind the extractor re-wraps (adds a BMP file header) before handing it out; the displaced PNG follows, shortened"""
+    import struct
+    import olefile
+    bio = io.BytesIO(ppt)
+    try:
+        ole = olefile.OleFileIO(bio, write_mode=True)
+        p = ole.openstream("Pictures").read()
+        _vi, t, ln = struct.unpack_from("<HHI", p, 0)
+        if t != 0xF01E or ln < 4096:
+            return None
+
+        def rec(inst, typ, payload):
+            return struct.pack("<HHI", inst << 4, typ, len(payload)) + payload
+
+        dib = struct.pack("<IiiHHIIiiII", 40, 2, 2, 1, 24, 0, 16, 2835, 2835, 0, 0) + bytes([10, 20, 30, 40, 50, 60, 0, 0, 70, 80, 90, 100, 110, 120, 0, 0])
+        r1 = rec(0x7A8, 0xF01F, bytes(range(16)) + b"\xff" + dib)
+        rest = 8 + ln - len(r1) - 8
+        r2 = rec(0x6E0, 0xF01E, bytes([1]) * 16 + b"\xff" + p[8 + 17: 8 + 17 + rest - 17])
+        new = r1 + r2 + p[8 + ln:]
+        if len(new) != len(p):
+            return None
+        ole.write_stream("Pictures", new)
+        ole.close()
+        return bio.getvalue()
+    except Exception:
+        return None
+
+
 def corpus() -> dict[str, bytes]:
     global _CACHE
     if _CACHE is None:
         c = _fixtures()
         c.update(generated())
+        if "fx/legacy_ms/ppt_with_images.ppt" in c:
+            d = _ppt_with_dib(c["fx/legacy_ms/ppt_with_images.ppt"])
+            if d:
+                c["gen/dib.ppt"] = d
         _CACHE = c
     return _CACHE
 
